@@ -39,8 +39,21 @@ func cmdVerify(args []string) {
 	dump := fs.String("dump", "", "write the SMT script of the (single) function here")
 	showModel := fs.Bool("model", false, "print models of failed obligations")
 	all := fs.Bool("all", false, "verify every function that has a contract")
+	ov := fs.String("ov", "", "overlay: /repo/path.go=/tmp/replacement.go[,...]")
 	fs.Parse(args)
-	eng, err := loadEngine(repoRoot+"/"+*mod, nil)
+	var overlay map[string][]byte
+	if *ov != "" {
+		overlay = map[string][]byte{}
+		for _, kv := range strings.Split(*ov, ",") {
+			p := strings.SplitN(kv, "=", 2)
+			data, err := os.ReadFile(p[1])
+			if err != nil {
+				panic(err)
+			}
+			overlay[p[0]] = data
+		}
+	}
+	eng, err := loadEngine(repoRoot+"/"+*mod, overlay)
 	if err != nil {
 		fmt.Fprintln(os.Stderr, "load:", err)
 		os.Exit(2)
@@ -91,20 +104,25 @@ func indent(s, pfx string) string {
 	return pfx + strings.ReplaceAll(strings.TrimRight(s, "\n"), "\n", "\n"+pfx)
 }
 
-// filterModel keeps the model lines that concern named program values.
+// filterModel keeps the scalar model lines.
 func filterModel(m string) string {
 	var out []string
 	lines := strings.Split(m, "\n")
 	for i := 0; i < len(lines); i++ {
-		ln := lines[i]
-		if strings.Contains(ln, "define-fun") && !strings.Contains(ln, "!") || strings.Contains(ln, "define-fun |pc.") || strings.Contains(ln, "define-fun pc.") {
+		ln := strings.TrimSpace(lines[i])
+		if strings.HasPrefix(ln, "(define-fun") && !strings.Contains(ln, "Array") && strings.HasSuffix(ln, "Int") || strings.HasSuffix(ln, "Bool") {
 			if i+1 < len(lines) {
-				out = append(out, strings.TrimSpace(ln)+" "+strings.TrimSpace(lines[i+1]))
+				name := strings.Fields(ln)[1]
+				if strings.HasPrefix(name, "str.") || strings.HasPrefix(name, "arr.") || strings.HasPrefix(name, "|hv") || strings.HasPrefix(name, "hv") {
+					continue
+				}
+				out = append(out, name+" = "+strings.TrimSuffix(strings.TrimSpace(lines[i+1]), ")"))
 			}
 		}
 	}
-	if len(out) > 60 {
-		out = out[:60]
+	sort.Strings(out)
+	if len(out) > 80 {
+		out = out[:80]
 	}
 	return strings.Join(out, "\n")
 }
